@@ -265,6 +265,10 @@ impl AsyncCopiaSync {
                 }
             }
         }
+        // `write_all` on a buffering writer (tokio's `File` hands the bytes to a pool
+        // thread) only reports the PREVIOUS write's failure: without a flush the last
+        // write can fail unseen and the patch would report success on a short file.
+        output.flush().await?;
 
         if self.config.verify_checksum {
             let computed = StrongHash::from_bytes(*hasher.finalize().as_bytes());
